@@ -207,10 +207,10 @@ class Expander:
         return [(self.expr(f, subst(t, env), depth), v) for t, v in path.conds]
 
     # ------------------------------------------------------------------ whole function
-    def returns(self, f: FuncInfo, max_paths=256):
+    def returns(self, f: FuncInfo, max_paths=4000, split_boolops=True):
         """[(path, expanded return expression, final env)] for every normally-returning path of f"""
         out = []
-        for p in enumerate_paths(f.node.body, max_paths=max_paths):
+        for p in enumerate_paths(f.node.body, max_paths=max_paths, split_boolops=split_boolops):
             if p.exit != "return" or p.ret is None:
                 continue
             r, env = self.run_path(f, p, {}, 0)
